@@ -40,6 +40,11 @@ CHECKS = {
     technique="TLA+: Lang.tla (operator table, trees, minimal/full rendering, RPN) composed with LR.tla, the bison automaton extracted from the working tree's parser.y; TLC checks Parse(Render(t)).out = RPN(t) on all trees; the same strings replayed through the real lexer/parser (callback sequence = RPN(t)) and ExpressionBuilder (tree = t)",
     text="Every operator at every operand position of every operator (5830 trees quick, +38k depth-3 thorough) is rendered with minimal and full parentheses; TLC runs the extracted LALR tables on the token strings and compares the emitted callbacks with RPN(t); the real parser must emit the same callbacks, build the same tree, also when embedded in guards/updates/invariants/initialisers/statements/queries; integer and floating literal boundaries are checked on the real lexer.",
     note="Trusts TLC, bison's XML report (cross-checked by replay), the operator table in Lang.tla (from the language documentation), python float() for decimal->binary64. Known finding: `x ? y : z = b` (inline-if rule carries %prec T_ASSIGNMENT)."),
+ "C03": dict(
+    category="model_checking", design_ref="DESIGN.md section 5 (C03), 2.1",
+    technique="TLA+: Printer.tla (transcription of expression_t::print/get_precedence on Lang trees) composed with LR.tla: TLC checks Parse(StrT(Canon(t))) = Canon(t) on the extracted grammar; Queries.tla enumerates the query forms; every accepted tree/query is printed, re-parsed and compared in the real library",
+    text="For 25k typed expression trees (entered minimally and fully parenthesised) and 270 query forms (A[] E<> A<> E[] -->, A[U]/A[W], sup/inf/bounds, Pr quantitative/qualitative/compare/until with time/step/clock bounds and run counts, E[..], simulate x3, control forms, minE/maxE/minPr/maxPr with features and `under`, load/saveStrategy, MITL) the library's own str() output is re-parsed in the same scope; canonical trees (incl. double bit patterns) and the second print must be identical and str() must not throw. The spec-level check says which side (printer or grammar) is wrong.",
+    note="Scope = inputs the library accepts without diagnostics in the scaffold. Binder symbols are compared by name (expression_t::equal is by identity). Known findings: MITL query forms print in an internal notation."),
 }
 NOT_APPLICABLE = {}
 PENDING_REASON = "check not built yet (work in progress; see DESIGN.md section 5 for the plan)"
